@@ -792,6 +792,9 @@ func runRLPx(run *ev.Run, deadline time.Time) {
 			c := c
 			fs, class := evalTamper(c)
 			cs.add(class)
+			if i == 1 && c == tcs[i*batch] {
+				run.Sample(map[string]interface{}{"part": "rlpx", "case": c, "class": class})
+			}
 			sink.add(fs, func() []finding { f, _ := evalTamper(c); return f })
 		}
 		run.Eval(hi - i*batch)
